@@ -160,7 +160,12 @@ def check(ctx):
         fed = False
         for v in real:
             roots = origin_defs(ff, cn, v)
-            loop_roots = [d for d in roots if d.kind in ("for", "for-unpack")]
+            # names bound by a comprehension / generator inside the stored expression are its own (`extend(f(x) for x in value)`
+            # feeds every element), whatever an earlier loop called its target
+            own = {n.id for c in ast.walk(v) if isinstance(c, ast.comprehension) for n in ast.walk(c.target) if isinstance(n, ast.Name)}
+            if own:
+                fed = True
+            loop_roots = [d for d in roots if d.kind in ("for", "for-unpack") and d.name not in own]
             for d in loop_roots:
                 loop_stmt = ff.cfg.nodes[d.node]
                 over_value = loop_stmt in value_loops
